@@ -74,7 +74,7 @@ let dump_copy (buf : Buffer.t) (i : id) (c : copy) : unit =
   List.iter
     (fun (k, v) ->
       Buffer.add_string buf
-        (Printf.sprintf " %s %s %s %s" (hex_of_bytes k) (hex_of_bytes v.v_val) (string_of_n v.v_ver)
+        (Printf.sprintf " %s %s %s %s" (hex_of_bytes k) (hexv v.v_val) (string_of_n v.v_ver)
            (status_tokens v.v_st)))
     c.c_kvs
 
@@ -111,7 +111,7 @@ let dump_events (evs : mevent list) : string =
   Buffer.add_string buf (Printf.sprintf "ev %d" (List.length evs));
   List.iter
     (fun ((i, k), v) ->
-      Buffer.add_string buf (Printf.sprintf " %s %s %s" (token_of_id i) (hex_of_bytes k) (hex_of_bytes v)))
+      Buffer.add_string buf (Printf.sprintf " %s %s %s" (token_of_id i) (hex_of_bytes k) (hexv v)))
     evs;
   Buffer.contents buf
 
@@ -377,6 +377,7 @@ let exec (c : cursor) : outcome =
       Obs (Printf.sprintf "valid %d dead %d seed %d draws %d" (if valid then 1 else 0)
              (if sel.sel_dead_decided then 1 else 0) (if sel.sel_seed_decided then 1 else 0)
              (int_of_nat sel.sel_draws_used))
+  | "ROUND" | "ROUNDSEND" | "HS" | "HSEND" -> Obs "ok"
   | "LEV" ->
       let ev =
         match next c with
@@ -495,6 +496,10 @@ let () =
              | "TICK" -> Monitor.on_tick impl
              | "SYN" -> Monitor.on_syn (next_int mc) impl
              | "CATCHUP" -> Monitor.on_catchup (next_int mc) impl
+             | "ROUND" -> Monitor.on_round (next_int mc)
+             | "ROUNDSEND" -> Monitor.on_rounds_end (next_int mc)
+             | "HS" -> let a = next_int mc in let b = next_int mc in Monitor.on_hs_begin a b
+             | "HSEND" -> let a = next_int mc in let b = next_int mc in Monitor.on_hs_end a b
              | "DELTA" ->
                  let i = next_int mc in
                  let _dg = parse_digest mc in
